@@ -20,16 +20,16 @@ type CConfig struct {
 	Relay       int      `json:"relay"`         // >0: another BitXHub (id 1357) with this many validators is registered as relay chain
 	NoFabsimCap bool     `json:"no_fabsim_cap"` // lift the per-run cap on proofs handed to the FabricSim validator (only used by the known-finding replay of the validator-pool wedge)
 	Profile     string   `json:"profile"`
-	Late        bool     `json:"late"`                // every chain has one more service ("sl") that is not registered in the prologue: "register" steps submit it during the run
-	SplitGroups bool     `json:"split_groups"`        // one-to-many groups only from services of the first chain, one-to-one traffic only from the others (so that the two reference models never share a transaction id)
-	SamePairs   bool     `json:"same_pairs"`          // also pairs inside one appchain, incl. a service calling itself
-	AuditOps    bool     `json:"audit_ops,omitempty"` // audit nodes and audit administrators: registration, update, binding, logout, with proposals left open and decided later
-	RoleOps     bool     `json:"role_ops"`            // new governance administrators and the audit-administrator cycle are registered during the run (grant clause of C14)
-	RuleOps     bool     `json:"rule_ops"`            // rule lifecycle: further rules are registered, the master rule is updated through governance (approved or rejected), rules are logged out
-	RefRestart  []int    `json:"ref_restart"`         // profiles with a single replica: it is stopped and reopened after these block indexes
-	Rejected    bool     `json:"rejected,omitempty"`  // before the chains were registered, the outsider applied for the same chain ids and was rejected
-	KV          bool     `json:"kv,omitempty"`        // a user WASM contract with storage is deployed and invoked (succeeding, trapping, running out of gas)
-	BigBlocks   bool     `json:"big_blocks"`          // few cuts: most blocks are filled to the sequencer's limit
+	Late        bool     `json:"late"`                  // every chain has one more service ("sl") that is not registered in the prologue: "register" steps submit it during the run
+	SplitGroups bool     `json:"split_groups"`          // one-to-many groups only from services of the first chain, one-to-one traffic only from the others (so that the two reference models never share a transaction id)
+	SamePairs   bool     `json:"same_pairs"`            // also pairs inside one appchain, incl. a service calling itself
+	AuditOps    bool     `json:"audit_ops,omitempty"`   // audit nodes and audit administrators: registration, update, binding, logout, with proposals left open and decided later
+	RoleOps     bool     `json:"role_ops"`              // new governance administrators and the audit-administrator cycle are registered during the run (grant clause of C14)
+	RuleOps     bool     `json:"rule_ops"`              // rule lifecycle: further rules are registered, the master rule is updated through governance (approved or rejected), rules are logged out
+	RefRestart  []int    `json:"ref_restart"`           // profiles with a single replica: it is stopped and reopened after these block indexes
+	Rejected    bool     `json:"rejected,omitempty"`    // before the chains were registered, the outsider applied for the same chain ids and was rejected
+	KV          bool     `json:"kv,omitempty"`          // a user WASM contract with storage is deployed and invoked (succeeding, trapping, running out of gas)
+	BigBlocks   bool     `json:"big_blocks"`            // few cuts: most blocks are filled to the sequencer's limit
 	ViewWrites  int      `json:"view_writes,omitempty"` // permille of the blocks after which state-writing transactions are sent through the node's read-only executor (second sentence of C07)
 }
 
@@ -65,6 +65,7 @@ type CStep struct {
 	GJ     bool     `json:"gj,omitempty"`    // ibtp receipt: carries a (meaningless) group descriptor although its request was one-to-one
 	Local  bool     `json:"local,omitempty"` // LocalList bit (signature not re-verified)
 	BadSig bool     `json:"badsig,omitempty"`
+	Notice int      `json:"notice,omitempty"` // ibtp request between two local services that carries, in its Extra field, what only another BitXHub's notice carries: 1 begin-failure, 2 begin-rollback; its index is drawn like a receipt's (the oldest request without receipt)
 }
 
 func policies(r *sim.Rand, n int) []Policy {
@@ -285,6 +286,9 @@ func (g *gen) ibtp() CStep {
 	}
 	if s.Kind != "req" && r.Chance(0.05) {
 		s.GJ = true
+	}
+	if s.Kind == "req" && r.Chance(0.06) {
+		s.Notice = 1 + r.Intn(2)
 	}
 	return s
 }
